@@ -906,7 +906,7 @@ func (x *c04ctx) headerGuard() {
 				sprintf("%s sets the Mcp-Session-Id response header to a value that is not GetID() of the request's session", fname(fn)))
 		})
 	}
-	c.R.Min("R-header-guard", 10)
+	c.R.Min("R-header-guard", 3) // (one shared helper may hold the only Set)
 	_ = n
 }
 
@@ -1416,7 +1416,30 @@ func c04HeaderBeforeStream(c *Ctx) {
 		if len(senderCalls) == 0 {
 			continue
 		}
-		// header sets of the session id on w in this function
+		// header sets of the session id on w in this function — made directly, or by a helper handed w
+		var setsHeader func(f *ssa.Function, d int) bool
+		setsHeader = func(f *ssa.Function, d int) bool {
+			found := false
+			ir.EachInstr(f, func(_ *ssa.BasicBlock, _ int, in ssa.Instruction) {
+				call, ok := in.(*ssa.Call)
+				if !ok || found {
+					return
+				}
+				nm := ir.CallName(call)
+				if nm == "(net/http.Header).Set" || nm == "(net/http.Header).Add" {
+					if k, ok := ir.ConstStr(call.Call.Args[1]); ok && strings.EqualFold(k, "Mcp-Session-Id") {
+						found = true
+					}
+					return
+				}
+				if sc := ir.StaticCallee(call); sc != nil && c.P.IsLib(sc) && d < 2 && passesWriter(call) && !isRespondCall(c, call) {
+					if setsHeader(sc, d+1) {
+						found = true
+					}
+				}
+			})
+			return found
+		}
 		var sets []ssa.Instruction
 		ir.EachInstr(fn, func(_ *ssa.BasicBlock, _ int, in ssa.Instruction) {
 			call, ok := in.(*ssa.Call)
@@ -1424,13 +1447,15 @@ func c04HeaderBeforeStream(c *Ctx) {
 				return
 			}
 			nm := ir.CallName(call)
-			if nm != "(net/http.Header).Set" && nm != "(net/http.Header).Add" {
+			if nm == "(net/http.Header).Set" || nm == "(net/http.Header).Add" {
+				if k, ok := ir.ConstStr(call.Call.Args[1]); ok && strings.EqualFold(k, "Mcp-Session-Id") {
+					sets = append(sets, in)
+				}
 				return
 			}
-			if k, ok := ir.ConstStr(call.Call.Args[1]); !ok || !strings.EqualFold(k, "Mcp-Session-Id") {
-				return
+			if sc := ir.StaticCallee(call); sc != nil && c.P.IsLib(sc) && passesWriter(call) && !isRespondCall(c, call) && setsHeader(sc, 1) {
+				sets = append(sets, in)
 			}
-			sets = append(sets, in)
 		})
 		// dispatch calls that can run with the sender (reachable from its construction)
 		ir.EachInstr(fn, func(_ *ssa.BasicBlock, _ int, in ssa.Instruction) {
